@@ -208,6 +208,11 @@ def run_provider(script, acceptor=True, max_pdu_length=65536, store_in_file=froz
     """Run the real provider loop over a script.  Returns a dict describing the run."""
     from pynetdicom2 import dulprovider, fsm
     import queue
+    import common
+    common.note_case(dict(kind='provider-run', acceptor=acceptor, max_pdu_length=max_pdu_length, fail_sends=fail_sends,
+                          script=[[((x.hex() if len(x) <= 4096 else '%s...(%d bytes)' % (x[:64].hex(), len(x)))
+                                    if isinstance(x, (bytes, bytearray)) else repr(x)[:300]) for x in
+                                   (op if isinstance(op, (tuple, list)) else (op,))] for op in script][:400]))
     w = World(script, budget)
     w.fail_sends = fail_sends
     fake_mod = FakeSocketModule(w)
@@ -286,6 +291,7 @@ def run_provider(script, acceptor=True, max_pdu_length=65536, store_in_file=froz
                     refused_writes=w.refused_writes)
     finally:
         fsm.socket, dulprovider.time, dulprovider.select = saved
+        common.note_case(None)
 
 
 # ======================================================================================
